@@ -303,14 +303,17 @@ pub fn replay(case: &Value) -> Result<String, String> {
 pub fn plan(tier: Tier) -> Plan {
     let mut p = Plan::new("C05", "model_checking");
     let thorough = tier.thorough();
-    p.rule = "every k-tuple (k=1..4) of subsets of U4={'',a,ab,b} and (k=5,6) of U3={'',a,b}, and (k=2,3) of Unul={'',00,a,a00} (keys differing only in trailing NUL bytes), values 10*stream+key-index and constant 5 (heap ties), stream kinds {whole FST, range().ge(''), search(AlwaysMatch), user Vec streamer} (all kind vectors for k<=3 quick / k<=4 thorough, a rotating vector above), four operations through raw/map/set OpBuilder (+FromIterator/Extend/op().add() forms), IndexedValue lists compared as sets; is_disjoint/is_subset/is_superset for all ordered pairs x stream kinds. non-trivial = tuples with k >= 2 and at least two non-empty streams".into();
+    p.rule = "every k-tuple (k=1..4) of subsets of U4={'',a,ab,b} and (k=5,6) of U3={'',a,b}, and (k=2,3) of Unul={'',00,a,a00} (keys differing only in trailing NUL bytes) and of Ulong (8-11 byte keys sharing a 7-byte prefix), values 10*stream+key-index and constant 5 (heap ties), stream kinds {whole FST, range().ge(''), search(AlwaysMatch), user Vec streamer} (all kind vectors for k<=3 quick / k<=4 thorough, a rotating vector above), four operations through raw/map/set OpBuilder (+FromIterator/Extend/op().add() forms), IndexedValue lists compared as sets; is_disjoint/is_subset/is_superset for all ordered pairs x stream kinds. non-trivial = tuples with k >= 2 and at least two non-empty streams".into();
     p.assumptions = vec!["order inside an IndexedValue list is unspecified and is normalised before comparison".into()];
     let u4: Vec<Key> = vec![b"".to_vec(), b"a".to_vec(), b"ab".to_vec(), b"b".to_vec()];
     let u3: Vec<Key> = vec![b"".to_vec(), b"a".to_vec(), b"b".to_vec()];
     // keys that differ only in trailing NUL bytes (ordering of a key and its
     // zero-padded extensions)
     let un: Vec<Key> = vec![b"".to_vec(), b"\0".to_vec(), b"a".to_vec(), b"a\0".to_vec()];
-    for (uni, ks) in [(u4.clone(), vec![1usize, 2, 3, 4]), (u3.clone(), vec![5, 6]), (un.clone(), vec![2, 3])] {
+    // keys of 8..11 bytes sharing their first 7 bytes, of different lengths,
+    // the longer ones not always the larger ones
+    let ul: Vec<Key> = vec![b"https:/b".to_vec(), b"https:/bb.e".to_vec(), b"https:/bbb".to_vec(), b"https:/c.e".to_vec()];
+    for (uni, ks) in [(u4.clone(), vec![1usize, 2, 3, 4]), (u3.clone(), vec![5, 6]), (un.clone(), vec![2, 3]), (ul.clone(), vec![2, 3])] {
         let nsub = 1usize << uni.len();
         // pre-built sources: [mode][stream index][mask]
         let mut table: Vec<Vec<Vec<Src>>> = vec![];
@@ -330,7 +333,7 @@ pub fn plan(tier: Tier) -> Plan {
             let total = (nsub as u64).pow(k as u32);
             for (a, b) in ranges(total, 128) {
                 let table = table.clone();
-                let uname = if uni == un { "Unul" } else if uni.len() == 4 { "U4" } else { "U3" };
+                let uname = if uni == ul { "Ulong" } else if uni == un { "Unul" } else if uni.len() == 4 { "U4" } else { "U3" };
                 p.units.push(unit(
                     &format!("{}-all-{}-tuples", uname, k),
                     format!("{} k={} tuples {}..{}", uname, k, a, b),
@@ -439,6 +442,32 @@ pub fn plan(tier: Tier) -> Plan {
             }
         }));
     }
+    // predicates over longer streams with a SINGLE deciding key at every position
+    p.units.push(unit("predicates-single-deciding-key-at-every-position-(n<=80)", "deciding key".into(), move |st, rep| {
+        for n in [1usize, 2, 5, 31, 32, 33, 34, 40, 64, 65, 80] {
+            let keys: Vec<Key> = (0..n).map(|i| format!("k{:03}", i).into_bytes()).collect();
+            let all = make_src(Pat::Idx.apply(&keys)).unwrap();
+            for pos in 0..n {
+                // {k_pos} vs all: not disjoint, subset, not superset (n > 1)
+                let one = make_src(vec![(keys[pos].clone(), 9)]).unwrap();
+                // all-but-k_pos vs all: subset, not superset, not disjoint (n > 1)
+                let but: Vec<Key> = keys.iter().enumerate().filter(|(i, _)| *i != pos).map(|(_, k)| k.clone()).collect();
+                let butsrc = make_src(Pat::Idx.apply(&but)).unwrap();
+                // a key outside everything, at position pos of the other stream
+                let mut with_out = but.clone();
+                with_out.push(format!("k{:03}x", pos).into_bytes());
+                with_out.sort();
+                let outsrc = make_src(Pat::Idx.apply(&with_out)).unwrap();
+                for (a, b) in [(&one, &all), (&all, &one), (&butsrc, &all), (&all, &butsrc), (&butsrc, &one), (&one, &butsrc), (&all, &outsrc), (&butsrc, &outsrc)] {
+                    st.states += 1;
+                    match run_pair(a, b) {
+                        Ok(c) => { st.evals += c; st.transitions += c; st.count("predicate_calls", c); }
+                        Err(msg) => rep.violation(format!("deciding key n={} pos={} sizes {} {}", n, pos, a.kvs.len(), b.kvs.len()), msg, json!({"pair": true, "streams": [kvs_json(&a.kvs), kvs_json(&b.kvs)]})),
+                    }
+                }
+            }
+        }
+    }));
     p.must_be_nonzero = vec!["predicate_calls".into()];
     p
 }
